@@ -10,7 +10,7 @@ ADJ_NOTE = ("Trusted base: TLC; the abstraction/concretisation layer harness/abs
 
 CHECKS = {
  "C01": dict(engine="adjust", tech="TLA+ spec (Adjust) model-checked by TLC; TLC-enumerated + random scenarios replayed end-to-end on the real Adaptation/stubs; recorded traces validated by TLC (Trace_Adjust)",
-   text="The ownership ledger of Adjust.tla is model-checked (NoSilentJoin, LedgerSound) for every scenario of each family alphabet; every enumerated scenario (all item kinds, every scalar field, adjust and update paths, all request kinds, sequential and 8 concurrent callers) is executed on the real code and the recorded trace must be a behaviour of the specification: a conflict the specification derives must be reported by the real request (label C01-unflagged).",
+   text="The ownership ledger of Adjust.tla is model-checked (NoSilentJoin, LedgerSound) for every scenario of each family alphabet; every enumerated scenario (all item kinds, every scalar field, adjust and update paths, all request kinds, sequential and 8 concurrent callers) is executed on the real code and the recorded trace must be a behaviour of the specification: a conflict the specification derives must be reported by the real request (label C01-unflagged). Every other batch registers two neighbouring plugins with the same index and name (two instances of one program): they are different plugins to the ledger; the seeded generator lets plugins ask for values the item already has.",
    ref="5/C01"),
  "C02": dict(engine="adjust", tech="TLA+ spec (Adjust) model-checked by TLC; scenario replay on the real code; TLC trace validation",
    text="Converse direction of the same ledger predicate (NoFalseConflict model-checked): whenever the specification computes no conflict from the writes present in the responses, the real request must succeed (label C02-false-conflict); includes pre-populated originals/requests, pure removals followed by sets, remove-then-set.",
@@ -28,10 +28,10 @@ CHECKS = {
    text="SyncChunk.tla is model-checked for every profile of 0-3 pods x 0-11 (14) containers x sizes against the limit (InBounds, Progress, ExactDelivery, CleanFailure, JustifiedFailure, BoundedSends, termination); the transcription of the pre-repair policy must violate it (vacuity guard). Every profile (real multi-megabyte objects against ttRPC's 4 MiB limit, plus thousands of small objects) is one real plugin registration in a child process; the hook-recorded chunk sequence and the plugin's handler call must satisfy the chunk protocol: counts within what remains, correct more flags, progress, exactly one handler call with exactly the supplied state in order and intact, updates returned to the runtime's callback, failure only at the minimum chunk size and without activation, no crash, no hang.",
    ref="5/C09", note="Trusted base: TLC; hooks syncmsg.send/result; a child process per scenario makes a panic of the runtime side observable."),
  "C10": dict(engine="mux", tech="TLA+ spec (Mux, MuxTable) model-checked by TLC over all interleavings incl. negative controls; the frame-splitting loop proved for every payload length with Apalache (MuxSplitInd); TLC-generated connection-table operation sequences (Gen_MuxTable) replayed; executions of the real multiplexer recorded through hook points under the write lock and in the reader, validated by TLC (Trace_Mux)",
-   text="Mux.tla is model-checked (WellFormed, PrefixInv, Isolated, Complete, ChunksContiguous; without the write lock TLC must find a violation). Recorded runs of the real mux over a socket pair - concurrent writers on both ends, self-describing messages incl. empty payloads and the frame-size boundaries up to 3*max+5, queue lengths 1/2/16/256 - must be behaviours of the specification: every frame the reader parses is the next frame that entered the trunk under the write lock (no interleaving inside a message), every Read returns the head of its own connection's queue intact, and at quiescence everything written has been read, in order, per connection.",
+   text="Mux.tla is model-checked (WellFormed, PrefixInv, Isolated, Complete, ChunksContiguous; without the write lock TLC must find a violation). Recorded runs of the real mux over a socket pair - concurrent writers on both ends, self-describing messages incl. empty payloads and the frame-size boundaries up to 3*max+5, queue lengths 1/2/16/256 - must be behaviours of the specification: every frame the reader parses is the next frame that entered the trunk under the write lock (no interleaving inside a message), every Read returns the head of its own connection's queue intact, and at quiescence everything written has been read, in order, per connection. A third of the stream scenarios use ends that were never blocked, with Unblock() called on them all the same.",
    ref="5/C10", note="Trusted base: TLC; the before/after logging discipline (R2); the harness' frame descriptors. Assumes connection ids opened on both ends before traffic, reader buffers of at least one frame, frames in flight within the queue length."),
  "C11": dict(engine="mux", tech="TLA+ spec (Mux faults: Cut, CloseA, CloseB, overflow; MuxTable: handles, re-opened ids, repeated Close) model-checked by TLC incl. liveness AfterClose/WritersEnd; TLC-enumerated fault placements (Gen_Mux) replayed on the real mux with a byte-cutting trunk; traces validated by TLC",
-   text="Design: PrefixInv under every fault and the liveness properties AfterClose / WritersEnd are model-checked. Gen_Mux enumerates the trunk cut after byte k in either direction (every k in thorough, every 3rd in quick), a close of either end after j frames by 1, 2 or 8 concurrent closers, and overflow at every position for queue lengths 1 and 2; each is realised on the real mux in a child process (a panic is observed as such). The validated trace must show: received data always the in-order prefix (queue head) of what was sent; an overflow only when the queue really was full; no Read/Write/Close/Accept hanging (3 s watchdog); writes after the failure fail; reads return queued frames and then an error (EOF after an orderly close); second Accept returns EOF after the listener is closed. MuxTable sequences add: Close of a multiplexer whose reader was never unblocked returns (C11-close-hangs); every other scenario runs over a transport whose Close reports an error; every scenario closes 200 fresh wrapped listeners by eight goroutines released at the same instant.",
+   text="Design: PrefixInv under every fault and the liveness properties AfterClose / WritersEnd are model-checked. Gen_Mux enumerates the trunk cut after byte k in either direction (every k in thorough, every 3rd in quick), a close of either end after j frames by 1, 2 or 8 concurrent closers, and overflow at every position for queue lengths 1 and 2; each is realised on the real mux in a child process (a panic is observed as such). The validated trace must show: received data always the in-order prefix (queue head) of what was sent; an overflow only when the queue really was full; no Read/Write/Close/Accept hanging (3 s watchdog); writes after the failure fail; reads return queued frames and then an error (EOF after an orderly close); second Accept returns EOF after the listener is closed. MuxTable sequences add: Close of a multiplexer whose reader was never unblocked returns (C11-close-hangs); every other scenario runs over a transport whose Close reports an error; every scenario closes 200 fresh wrapped listeners by eight goroutines released at the same instant. The wrapped listener is exercised with two blocked accepters, an Accept after the close and listeners closed before anybody accepted; fresh ids are opened by six goroutines at once and every handle handed out is read after the close; Open() after the close must be refused or yield a connection that fails at once (D15, fixed).",
    ref="5/C11", note="As C10. After an error, reads may still return frames that were already queued (conn.Read selects between the closed channel and the queue); the property's prefix clause is what is asserted."),
  "C14": dict(engine="convert", tech="TLA+ spec (Convert: field tables, Copy contract, optional constructors, event-name table) enumerated by TLC; exported pkg/api functions executed on every enumerated input; outputs validated by TLC (Trace_Convert)",
    text="Convert.tla states which fields both representations carry, what Copy preserves, nil/value behaviour of each optional constructor and the bit<->name table of the event mask (TableOK checked by TLC). TLC enumerates inputs: every scalar resource field alone with boundary values incl. zero vs unset, all/none, lists, (thorough) every subset of the 17 common fields, Copy followed by mutation of each mutable part on either side (no shared state), mounts, devices, hooks in all six stages, env entries, every constructor x argument kind x boundary value, and all 8192 event masks (print, parse, IsSet) exhaustively in both tiers; the real functions' outputs must equal the specification's.",
@@ -52,13 +52,13 @@ CHECKS = {
    text="MC_Relay explores a plugin failing at every moment relative to every other step and handler errors (Delivered, VisitedOK, liveness AllDone = no deadlock). Gen_Fault enumerates plugin position x request kind x fault (close before/during/after, cut after k bytes of request or response, hang past the timeout, context-blocked hang, garbage on the wire, handler error); each is realised on the real Adaptation with a raw mux+ttRPC plugin peer whose connection is cut at exact byte offsets; the validated trace must show: request returns (watchdog 20xT), latency <= n x T + 2 s, survivors' contributions intact, dropped plugin never reached again, handler error fails the request with that error and no later plugin invoked.",
    ref="5/C07", note="Trusted base as C06; a plugin dropped exactly while answering may or may not have contributed / vetoed (both accepted); a cut is a close of the plugin's end of the socket."),
  "C08": dict(engine="relay", tech="TLA+ spec (Relay sync lock) model-checked by TLC incl. a negative control; Apalache inductive invariant (SyncOnceInd: exactly-once for any number of held sync blocks); recorded executions with racing registrations and creations validated by TLC",
-   text="ExactlyOnce and HeldBlocksSync are model-checked over all interleavings (and a mutated model without sync blocks must violate ExactlyOnce - vacuity guard); SyncOnceInd proves them inductive with Apalache for one plugin, one container and an unbounded number of other held blocks. In recorded runs of the real code every sync.exclusive must find no sync block held, every block.acquired no registration in progress, every store.add / activation must satisfy snapshot XOR creation-relayed for each live active subscribed plugin, and registrations must complete once blocks are released.",
+   text="ExactlyOnce and HeldBlocksSync are model-checked over all interleavings (and a mutated model without sync blocks must violate ExactlyOnce - vacuity guard); SyncOnceInd proves them inductive with Apalache for one plugin, one container and an unbounded number of other held blocks. In recorded runs of the real code every sync.exclusive must find no sync block held, every block.acquired no registration in progress, every store.add / activation must satisfy snapshot XOR creation-relayed for each live active subscribed plugin, and registrations must complete once blocks are released. Every other recorded run the runtime holds a sync block from before Start() until a few ms into the run.",
    ref="5/C08", note="Assumes the runtime performs creation and bookkeeping inside one sync block (the harness' runtime does). Same trusted base as C06."),
  "C17": dict(engine="relay", tech="TLA+ spec (Relay registration; WellFormed decided from raw strings in Trace_Relay) model-checked by TLC; TLC-enumerated registration classes (Gen_Reg) replayed with raw plugin peers; recorded runs validated by TLC",
-   text="MC_Relay with malformed registrations in the accept queue (OnlyWellFormed, liveness RegsEnd: bad plugins never stop later ones). Gen_Reg enumerates name x index-string x mask x stall classes (empty/one/three digits, letters, sign, space, non-ASCII digits; foreign, high and sign bits; never registers / never answers Configure) alone and as up to 2 (3 thorough) bad plugins ahead of a good one; each is realised with raw mux+ttRPC peers; the trace specification decides well-formedness itself from the logged raw strings and rejects any Synchronize/event reaching a malformed peer, a well-formed peer not activated within the budget, a socket served when disabled, or a created socket directory with group/other permission bits (umask 000/022/077/007).",
+   text="MC_Relay with malformed registrations in the accept queue (OnlyWellFormed, liveness RegsEnd: bad plugins never stop later ones). Gen_Reg enumerates name x index-string x mask x stall classes (empty/one/three digits, letters, sign, space, non-ASCII digits; foreign, high and sign bits; never registers / never answers Configure) alone and as up to 2 (3 thorough) bad plugins ahead of a good one; each is realised with raw mux+ttRPC peers; the trace specification decides well-formedness itself from the logged raw strings and rejects any Synchronize/event reaching a malformed peer, a well-formed peer not activated within the budget, a socket served when disabled, or a created socket directory with group/other permission bits (umask 000/022/077/007). Stall class lateregister: a plugin registering after the registration timeout but within a (longer) request timeout is not activated.",
    ref="5/C17", note="Trusted base as C06; timeouts shortened to 200 ms; slack 2 s."),
  "C19": dict(engine="relay", tech="TLA+ spec (Relay adaptation lock) model-checked by TLC; recorded executions with concurrent unsolicited updates validated by TLC",
-   text="CallbackExclusive is model-checked; in recorded runs the update callback must run only while the adaptation lock is held by that update (never overlapping a request, an activation or another update), exactly once per call with the payload sent, and the plugin must get back exactly the callback's failed list or error - also for a request that carries no update at all (once per run, nil or empty list). A stub that was never started must answer ErrNoService at once (checked by the driver's preamble event).",
+   text="CallbackExclusive is model-checked; in recorded runs the update callback must run only while the adaptation lock is held by that update (never overlapping a request, an activation or another update), exactly once per call with the payload sent, and the plugin must get back exactly the callback's failed list or error - also for a request that carries no update at all (once per run, nil or empty list). A stub that was never started must answer ErrNoService at once (checked by the driver's preamble event). Recording updates-slow: the runtime's callback outlasts the request timeout for some updates (an update has no deadline: the result still reaches the plugin unchanged) and some of those plugins stop themselves meanwhile (the callback still finishes under the lock).",
    ref="5/C19", note="Same trusted base as C06."),
  "C18": dict(engine="launch", tech="TLA+ spec (Launch: launchability, environment, configuration precedence, invocation order, reaping) enumerated by TLC; a probe plugin on the real stub launched by a real Adaptation from materialised plugin directories; reports validated by TLC (Trace_Launch)",
    text="Launch.tla defines which directory entries are launched, with which environment, socket and configuration, in which order they are invoked and that nothing launched outlives Stop; TLC enumerates directory contents (two and three probe plugins in every combination of healthy / exits at once / never registers / dies later, among non-executables and subdirectories, equal indices, empty directory) and every combination of drop-in files for two plugins. Each is materialised with copies of a probe plugin built on the real stub; the probe's report of its environment, /proc/self/fd, configuration, the order of invocations and the process table after Stop must equal the specification's expectation. Further behaviours: fails its synchronization, registers under another identity, never answers an event (dropped - and must be killed), cannot be started at all (not a program, link to a directory), execute bits of owner / group / other only, stale NRI_* variables in the runtime's environment, the runtime's own synchronization callback failing.",
